@@ -36,6 +36,7 @@ type Faults struct {
 	ReadErrAt  int // the connection breaks and the n-th Read is the first call to notice
 	CutAtByte  int // cut the connection when this many bytes have been written by this end (0: never)
 	StallAt    int // stall this end's outgoing direction from its n-th Write until healed
+	HalfCloseAt int // the n-th Write finds this end's outgoing direction shut down: the peer reads EOF but can still write
 	ShortReads bool
 	ShortWrite bool // deliver writes in several chunks, yielding in between
 }
@@ -50,6 +51,7 @@ type End struct {
 	F      Faults
 	nw, nr int
 	Closes int
+	wshut  bool
 }
 
 // Pipe returns the two connected ends; capacity 0 is a synchronous pipe.
@@ -142,6 +144,19 @@ func (e *End) Write(b []byte) (int, error) {
 	if e.F.StallAt > 0 && e.nw == e.F.StallAt && !h.stalled {
 		h.stalled = true
 		s.Fault("stall")
+	}
+	if e.wshut {
+		return 0, ErrPipe
+	}
+	if e.F.HalfCloseAt > 0 && e.nw == e.F.HalfCloseAt {
+		// This end shuts down its outgoing direction instead of writing (like
+		// shutdown(SHUT_WR) or a closed stdout): the peer drains and then reads
+		// EOF, while the peer's own writes keep being read by this end.
+		e.wshut = true
+		h.wclosed = true
+		h.w.WakeAll(s)
+		s.Fault("half-close")
+		return 0, ErrPipe
 	}
 	limit := len(b)
 	var ferr error
